@@ -74,6 +74,8 @@ type Contract struct {
 	EnsuresP   []Clause
 	PanicsIff  *Clause
 	MayPanic   *Clause
+	ParamNames  []string // "params": the names this contract uses for receiver and parameters, by position
+	ResultNames []string // "results": the names this contract uses for named results, by position
 	Modifies   []string
 	Preserves  []string // with "modifies all": what is nevertheless unchanged
 	HasMod     bool
@@ -424,6 +426,18 @@ func (cs *Contracts) parseFile(path, pkg string) error {
 			cs.Funcs[c.Key] = c
 			cs.Order = append(cs.Order, c.Key)
 			cur = c
+		case "params":
+			// params <recv> <p1> ...   the contract's own names for receiver and parameters, by
+			// position ("_" = unnamed): clauses keep working when the code renames a parameter
+			if err := needCur(); err != nil {
+				return err
+			}
+			cur.ParamNames = strings.Fields(rest)
+		case "results":
+			if err := needCur(); err != nil {
+				return err
+			}
+			cur.ResultNames = strings.Fields(rest)
 		case "mode":
 			if err := needCur(); err != nil {
 				if curLemma != nil {
